@@ -136,7 +136,7 @@ func (a *actor) wait() (note, error) {
 	select {
 	case n := <-a.note:
 		return n, nil
-	case <-time.After(10 * time.Second):
+	case <-time.After(30 * time.Second):
 		return note{}, errStepTimeout
 	}
 }
